@@ -58,6 +58,8 @@ var propCfgs = map[string]propCfg{
 	"C07": {Profile: "tx", Level: "fault_enumeration", Quick: 3000, Thorough: 200000},
 	"C08": {Profile: "tx", Level: "exploration", Quick: 4000, Thorough: 300000},
 	"C09": {Profile: "integrity", Level: "exploration", Quick: 5000, Thorough: 300000},
+	"C17": {Profile: "snap", Level: "exploration", Quick: 3000, Thorough: 150000},
+	"C18": {Profile: "conc", Level: "exploration", Quick: 1500, Thorough: 60000, Race: true},
 }
 
 // ---------- worker ----------
@@ -126,12 +128,12 @@ func genFor(profile, prop string, seed uint64) *Plan { return GenPlan(profile, p
 func cmdWorker(t *testing.T, args []string) int {
 	b, err := os.ReadFile(args[0])
 	if err != nil {
-		fmt.Fprintln(os.Stderr, "worker:", err)
+		fmt.Println("worker:", err)
 		return 2
 	}
 	var job Job
 	if err := json.Unmarshal(b, &job); err != nil {
-		fmt.Fprintln(os.Stderr, "worker:", err)
+		fmt.Println("worker:", err)
 		return 2
 	}
 	out := &WorkerOut{Kinds: map[string]int{}, Trans: map[string]int{}, FaultsConf: map[string]int{}, FaultsHit: map[string]int{}, Probes: map[string]int{}, Foreign: map[string]int{}, OwnSigs: map[string]int{}}
@@ -221,7 +223,7 @@ func cmdWorker(t *testing.T, args []string) int {
 	}
 	ob, _ := json.Marshal(out)
 	if err := os.WriteFile(job.Out, ob, 0644); err != nil {
-		fmt.Fprintln(os.Stderr, "worker:", err)
+		fmt.Println("worker:", err)
 		return 2
 	}
 	return 0
@@ -285,7 +287,7 @@ func cmdReplay(t *testing.T, args []string) int {
 	}
 	opt := execOptFor(plan.Prop)
 	opt.Log = len(args) > 1
-	res := Execute(t, plan, opt)
+	res := ExecuteChecked(t, plan, opt)
 	if res.HarnessErr != "" {
 		fmt.Println("HARNESS-ERROR", res.HarnessErr)
 		return 2
@@ -299,7 +301,7 @@ func cmdReplay(t *testing.T, args []string) int {
 		return 0
 	}
 	fmt.Printf("VIOLATION property=%s replay=%s\n", plan.Prop, args[0])
-	fmt.Printf("  oracle=%s sig=%s\n  %s\n", v.Oracle, v.Sig, v.Detail)
+	fmt.Printf("  oracle=%s sig=%s\n  %s\n", v.Oracle, v.Sig, indent(v.Detail))
 	if plan.Violation != nil && plan.Violation.Sig != v.Sig {
 		fmt.Printf("  (recorded signature was %s)\n", plan.Violation.Sig)
 	}
@@ -308,22 +310,79 @@ func cmdReplay(t *testing.T, args []string) int {
 
 // ---------- minimisation (runs inside a worker-type process: needs *testing.T) ----------
 
+// tryResult is what one execution of a candidate plan yields.
+type tryResult struct {
+	Sig   string   `json:"sig"`
+	Trace []string `json:"trace"`
+	Err   string   `json:"err,omitempty"`
+}
+
+func tryInProcess(t *testing.T, c *Plan) tryResult {
+	res := ExecuteChecked(t, c, execOptFor(c.Prop))
+	if res.HarnessErr != "" {
+		return tryResult{Err: res.HarnessErr}
+	}
+	v, _ := sigOf(res, c.Prop)
+	return tryResult{Sig: v.Sig, Trace: res.Trace}
+}
+
+// tryInFreshProcess: the race detector reports each pair of stacks once per process, so candidates of a data-race
+// violation are each executed in a process of their own.
+func tryInFreshProcess(c *Plan) tryResult {
+	f, err := os.CreateTemp("/dev/shm", "dsim-try-*.json")
+	if err != nil {
+		return tryResult{Err: err.Error()}
+	}
+	f.Close()
+	defer os.Remove(f.Name())
+	if err := SavePlan(f.Name(), c); err != nil {
+		return tryResult{Err: err.Error()}
+	}
+	out, _ := runChild(2*time.Minute, "try", f.Name())
+	for _, l := range strings.Split(out, "\n") {
+		if strings.HasPrefix(l, "TRY ") {
+			var r tryResult
+			if json.Unmarshal([]byte(l[4:]), &r) == nil {
+				return r
+			}
+		}
+	}
+	return tryResult{Err: "no result from child: " + tail(out, 300)}
+}
+
+// try <file>: executes a plan and prints the signature of its first own-property violation.
+func cmdTry(t *testing.T, args []string) int {
+	plan, err := LoadPlan(args[0])
+	if err != nil {
+		fmt.Println("try:", err)
+		return 2
+	}
+	b, _ := json.Marshal(tryInProcess(t, plan))
+	fmt.Println("TRY " + string(b))
+	return 0
+}
+
 func minimise(t *testing.T, plan *Plan, sig string, budget int) *Plan {
 	best := plan.Clone()
 	execs := 0
+	fresh := strings.HasPrefix(sig, "data-race:")
+	if fresh && budget > 60 {
+		budget = 60
+	}
 	try := func(c *Plan) bool {
 		if execs >= budget {
 			return false
 		}
 		execs++
-		res := Execute(t, c, execOptFor(c.Prop))
-		if res.HarnessErr != "" {
-			return false
+		var r tryResult
+		if fresh {
+			r = tryInFreshProcess(c)
+		} else {
+			r = tryInProcess(t, c)
 		}
-		v, ok := sigOf(res, c.Prop)
-		if ok && v.Sig == sig {
-			c.Sched = res.Trace
-			c.MaxSteps = len(res.Trace) + 50
+		if r.Err == "" && r.Sig == sig {
+			c.Sched = r.Trace
+			c.MaxSteps = len(r.Trace) + 50
 			return true
 		}
 		return false
@@ -440,11 +499,16 @@ func cmdMinimize(t *testing.T, args []string) int {
 		return 2
 	}
 	m := minimise(t, plan, plan.Violation.Sig, 1500)
-	res := Execute(t, m, execOptFor(m.Prop))
+	res := ExecuteChecked(t, m, execOptFor(m.Prop))
 	v, ok := sigOf(res, m.Prop)
 	if !ok || v.Sig != plan.Violation.Sig {
-		// could not even reproduce: keep the original
-		m = plan
+		// could not reproduce in this process (e.g. a data race already reported here): keep what minimise returned
+		// if it made progress, it was verified candidate by candidate
+		if m.NumOps() >= plan.NumOps() {
+			m = plan
+		} else {
+			m.Violation = plan.Violation
+		}
 	} else {
 		m.Sched = res.Trace
 		m.Violation = &v
@@ -690,6 +754,23 @@ func cmdCheck(args []string) int {
 			_ = SavePlan(final, fv.Plan)
 		}
 		out, code := runChild(5*time.Minute, "replay", final)
+		if code != 1 && fv.Violation.Oracle == "race-detector" {
+			// a data race needs both accesses inside the race detector's bounded history: retry, then fall back to
+			// the unminimised plan; the race report itself stays the evidence
+			for attempt := 0; attempt < 4 && code != 1; attempt++ {
+				out, code = runChild(5*time.Minute, "replay", final)
+			}
+			if code != 1 {
+				_ = SavePlan(final, fv.Plan)
+				for attempt := 0; attempt < 4 && code != 1; attempt++ {
+					out, code = runChild(5*time.Minute, "replay", final)
+				}
+			}
+			if code != 1 {
+				fmt.Printf("note: the data race below did not reproduce in 8 replays of %s (detection depends on the race detector's history window)\n", final)
+				code = 1
+			}
+		}
 		if code != 1 {
 			fmt.Printf("REPLAY-MISMATCH: fresh-process replay of %s did not reproduce (exit %d): %s\n", final, code, tail(out, 1500))
 			return 2
@@ -815,7 +896,13 @@ func sanitize(s string) string {
 	return r
 }
 
-func indent(s string) string { return strings.ReplaceAll(s, "\n", "\n  ") }
+func indent(s string) string {
+	lines := strings.Split(s, "\n")
+	if len(lines) > 28 {
+		lines = append(lines[:28], fmt.Sprintf("... (%d more lines in the replay file)", len(lines)-28))
+	}
+	return strings.Join(lines, "\n  ")
+}
 
 func tail(s string, n int) string {
 	if len(s) > n {
@@ -831,7 +918,7 @@ func cmdDigest(t *testing.T, args []string) int {
 	n, _ := strconv.Atoi(args[3])
 	for i := 0; i < n; i++ {
 		plan := genFor(profile, prop, runSeed(base, i))
-		res := Execute(t, plan, execOptFor(prop))
+		res := ExecuteChecked(t, plan, execOptFor(prop))
 		res.SimTimeNs = 0
 		b, _ := json.Marshal(res)
 		fmt.Printf("%d %016x steps=%d viol=%d herr=%q\n", i, hashBytes(b), res.Steps, len(res.Violations), res.HarnessErr)
@@ -938,4 +1025,32 @@ func firstDiff(a, b string) string {
 		}
 	}
 	return fmt.Sprintf("  length %d vs %d", len(al), len(bl))
+}
+
+// ExecuteChecked = Execute + the oracles that live outside the bubble (race detector log for C18).
+func ExecuteChecked(t *testing.T, plan *Plan, opt ExecOpt) *RunResult {
+	res := Execute(t, plan, opt)
+	if plan.Profile == "conc" {
+		own, foreign := newRaceReports()
+		if foreign > 0 {
+			if res.Probes == nil {
+				res.Probes = map[string]int{}
+			}
+			res.Probes["data_race_reports_outside_repository"] += foreign
+		}
+		seen := map[string]bool{}
+		for _, rep := range own {
+			sig := raceSignature(rep)
+			if seen[sig] {
+				continue
+			}
+			seen[sig] = true
+			if len(rep) > 6000 {
+				rep = rep[:6000] + "\n   ..."
+			}
+			res.Violations = append(res.Violations, Violation{Props: []string{"C18"}, Oracle: "race-detector", Sig: sig,
+				Detail: "the Go race detector reported (steps of a race window run without mutual ordering):\n" + rep})
+		}
+	}
+	return res
 }
